@@ -421,6 +421,40 @@ theorem no_db_restart_partial (g : G) (hnp : g.persistent = false) (hchk : g.iat
     ⟨hnp, hchk, hiat, by rw [h0]; omega, fun _ r hr _ _ => by rw [(hfresh r hr).1]; omega, fun _ _ => h0⟩
   exact this.2.2.2.1
 
+/-! ## 3c. configuration reloads are not restarts -/
+
+theorem step_persistent_irrelevant (g : G) (r : Req) (b : Bool) :
+    step { g with persistent := b } r = ({ (step g r).1 with persistent := b }, (step g r).2) := by
+  unfold step; (repeat' split) <;> simp_all <;> omega
+
+/-- **reload_at_most_one.** In a running process — with or without a database — whose configuration is reloaded any
+    number of times at any moments (the used-token table is handed over to the new authority; requests in flight
+    continue): for every set of requests and every interleaving, at most one request stores the record of a token
+    id. In particular a CA without a database does not forget used tokens on SIGHUP. -/
+theorem reload_at_most_one (g : G) (rs : List Req) (hfresh : ∀ r ∈ rs, r.fresh) (k : Str) (evs : List Ev) :
+    (machineReload.run (g, rs) evs).2.countP (insertedWith k) ≤ 1 := by
+  have h0 : rs.countP (insertedWith k) = 0 :=
+    fresh_count_zero _ rs (fun r hr => by unfold insertedWith; rw [(hfresh r hr).2.1]; rfl)
+  have := Machine.run_inv machineReload
+    (fun s => s.2.countP (insertedWith k) ≤ 1 ∧ (has s.1.store k = false → s.2.countP (insertedWith k) = 0))
+    (fun s e ⟨h1, h2⟩ => by
+      cases e with
+      | restart now =>
+        have hm : (machineReload.exec s (.restart now)).2 = s.2 := by simp [Machine.exec, machineReload]
+        have hg : (machineReload.exec s (.restart now)).1.store = s.1.store := by simp [Machine.exec, machineReload]
+        rw [hm, hg]; exact ⟨h1, h2⟩
+      | step t =>
+        have hI : Inv k ({ s.1 with persistent := true }, s.2) := ⟨rfl, h1, h2⟩
+        have := inv_exec k ({ s.1 with persistent := true }, s.2) (.step t) hI
+        simp only [Machine.exec, machine, machineReload] at this ⊢
+        cases hr : s.2[t]? with
+        | none => exact ⟨h1, h2⟩
+        | some r =>
+          simp only [hr, step_persistent_irrelevant] at this
+          exact ⟨this.2.1, this.2.2⟩)
+    evs (g, rs) ⟨by rw [h0]; omega, fun _ => h0⟩
+  exact this.1
+
 /-! ## 4. what the code as it stands does not give (D12) -/
 
 def mkReq (iat : Option Nat) (idr : IdR) (sha : Str) : Req :=
@@ -438,10 +472,12 @@ theorem no_db_same_second_replay :
    [.step 0, .step 0, .step 0, .step 0, .restart 100, .step 1, .step 1, .step 1, .step 1],
    by decide⟩
 
-/-- **D12b (refutation of "same token ⇒ same id").** A token without `jti` is recorded under the
-    SHA-256 of the *presented string*; two spellings of one token (go-jose accepts `tok`,
-    `tok\n`, ` tok`, `tok=`) have different hashes, hence different ids, and both are authorized
-    even with a persistent store. `at_most_one` is about requests with the same *id*. -/
+/-- **D12b (historic refutation; fixed in /repo by c4bb6a3).** Two presentations with an empty id whose
+    fallback hashes differ are two ids, and both are authorized even with a persistent store. Before c4bb6a3 the
+    fallback hash was taken over the *presented string*, and go-jose accepts many spellings of one token (`tok`,
+    `tok\n`, ` tok`, `tok=`, JSON serialization with an unprotected header, ECDSA signature (r, n-s)), so one
+    token was authorized once per spelling. Since the fix the hash is over the signed payload, which all spellings
+    share: `same_payload_one_authorization`. -/
 theorem respelled_token_twice :
     ∃ (g : G) (rs : List Req) (evs : List Ev), g.persistent = true ∧ (∀ r ∈ rs, r.fresh) ∧
       (∀ r ∈ rs, r.inp.idr = .id []) ∧
@@ -450,6 +486,72 @@ theorem respelled_token_twice :
    [mkReq (some 100) (.id []) [0xaa], mkReq (some 100) (.id []) [0xbb]],
    [.step 0, .step 0, .step 0, .step 0, .step 1, .step 1, .step 1, .step 1],
    by decide⟩
+
+/-- **D12c (refutation, open).** GCP and AWS provisioners with trust on first use disabled return the hash of the
+    *presented string* as token id themselves (`GetTokenID`), so c4bb6a3 does not reach them: two spellings of one
+    token (same payload hash, different string hash) get different ids — and by `respelled_token_twice`-style
+    runs both are authorized. -/
+theorem cloud_no_tofu_keyed_by_string (t1 t2 : Tok) (hp1 : t1.parses = true) (hp2 : t2.parses = true)
+    (hv1 : t1.awsValid = true) (hv2 : t2.awsValid = true) (_hsame : t1.psha = t2.psha) (hdiff : t1.sha ≠ t2.sha)
+    (hne1 : t1.sha ≠ []) (hne2 : t2.sha ≠ []) :
+    useKey (getTokenID (.gcp true) t1) t1.psha ≠ useKey (getTokenID (.gcp true) t2) t2.psha ∧
+    useKey (getTokenID (.aws true) t1) t1.psha ≠ useKey (getTokenID (.aws true) t2) t2.psha := by
+  simp only [getTokenID, hp1, hp2, hv1, hv2]
+  cases h1 : t1.sha with
+  | nil => exact absurd h1 hne1
+  | cons a as =>
+    cases h2 : t2.sha with
+    | nil => exact absurd h2 hne2
+    | cons b bs =>
+      simp [useKey]
+      intro ha hb; apply hdiff; rw [h1, h2, ha, hb]
+
+/-- **renew_token_single_use.** For a certificate issued by a provisioner of *any* type, the renew token is recorded
+    under a key (its jti, or its payload hash when it has none) that does not depend on that type: it is never exempt
+    from the one-time rule, so `at_most_one` / `authorized_at_most_one` / `crash_points` apply to renew tokens of every
+    issuer — with a persistent store at most one presentation is authorized, for every interleaving and restart
+    placement. -/
+theorem renew_token_single_use (ty : PType) (t : Tok) :
+    (useKey (renewIdR ty t) t.psha).isSome = true ∧ renewIdR ty t = renewIdR .jwk t ∧
+    (t.jti ≠ [] → useKey (renewIdR ty t) t.psha = some t.jti) ∧ (t.jti = [] → useKey (renewIdR ty t) t.psha = some t.psha) := by
+  unfold renewIdR useKey
+  cases h : t.jti <;> simp
+
+theorem renew_tokens_at_most_one (g : G) (hp : g.persistent = true) (rs : List Req) (hfresh : ∀ r ∈ rs, r.fresh)
+    (ty : PType) (t : Tok) (evs : List Ev) :
+    ∃ k, useKey (renewIdR ty t) t.psha = some k ∧
+      (machine.run (g, rs) evs).2.countP (authorizedWith k) ≤ 1 := by
+  obtain ⟨h1, _⟩ := renew_token_single_use ty t
+  cases hk : useKey (renewIdR ty t) t.psha with
+  | none => rw [hk] at h1; cases h1
+  | some k => exact ⟨k, rfl, authorized_at_most_one g hp rs hfresh k evs⟩
+
+/-- **D12d (historic refutation; fixed in /repo by the commit "make renew tokens single-use whatever provisioner issued
+    the certificate").** Before the fix `AuthorizeRenewToken` asked the provisioner of the *certificate* for the id of the
+    renew token (`renewIdROld`). For a certificate issued by an ACME, SCEP or K8sSA provisioner that call fails,
+    `UseToken` recorded nothing, and the same renew token was authorized any number of times. -/
+theorem renew_token_replayable_for_idless_issuers :
+    (∀ t, renewIdROld .acme t = .err ∧ renewIdROld .scep t = .err ∧ renewIdROld .k8ssa t = .err) ∧
+    ∃ (g : G) (rs : List Req) (evs : List Ev), g.persistent = true ∧ (∀ r ∈ rs, r.fresh) ∧
+      (∀ r ∈ rs, r.inp.idr = .err ∧ r.inp.skip = false) ∧
+      (machine.run (g, rs) evs).2.countP (fun r => r.out == .authorized) = 3 :=
+  ⟨fun _ => ⟨rfl, rfl, rfl⟩,
+   { store := [], persistent := true, iatCheck := true, start := 100 },
+   [mkReq none .err [1], mkReq none .err [1], mkReq none .err [1]],
+   [.step 0, .step 0, .step 0, .step 0, .step 1, .step 1, .step 1, .step 1, .step 2, .step 2, .step 2, .step 2],
+   by decide⟩
+
+/-- **same_payload_one_authorization.** All presentations of a token without id that carry the same signed
+    payload (same fallback hash `h`) share the key `h`: with a persistent store at most one of them is authorized,
+    for every interleaving and restart placement — whatever spelling each used. -/
+theorem same_payload_one_authorization (g : G) (hp : g.persistent = true) (rs : List Req)
+    (hfresh : ∀ r ∈ rs, r.fresh) (h : Str) (evs : List Ev) :
+    (machine.run (g, rs) evs).2.countP (fun r => r.out == .authorized && r.inp.idr == .id [] && r.inp.sha == h && !r.inp.skip) ≤ 1 := by
+  refine Nat.le_trans (List.countP_mono_left ?_) (authorized_at_most_one g hp rs hfresh h evs)
+  intro r _ hr
+  simp at hr
+  unfold authorizedWith Req.key Inp.key useKey
+  simp [hr.1.1.1, hr.1.1.2, hr.1.2, hr.2]
 
 /-! ## non-vacuity: the hypotheses are met by runs in which something happens -/
 
@@ -468,5 +570,10 @@ example : ∃ evs, (machine.run ({ store := [], persistent := false, iatCheck :=
     = [.authorized, .denyIat] :=
   ⟨[.step 0, .step 0, .step 0, .step 0, .restart 101, .step 1, .step 1, .step 1, .step 1], by decide⟩
 
+
+example : (machineReload.run ({ store := [], persistent := false, iatCheck := true, start := 100 },
+    [mkReq none (.id (s "a")) [1], mkReq none (.id (s "a")) [1]])
+    [.step 0, .step 0, .step 0, .step 0, .restart 105, .step 1, .step 1, .step 1, .step 1]).2.map (·.out)
+    = [.authorized, .denyUsed] := by decide
 
 end Verif.OTT
